@@ -15,6 +15,7 @@ func init() { Monitors["C03"] = runC03 }
 func c03Opts(i int) lib.GenOpts {
 	opt := lib.DefaultGen()
 	opt.OrderedSiblings = i%7 == 0
+	opt.ZeroLenBinary = true
 	return opt
 }
 
